@@ -1,0 +1,83 @@
+//go:build verif
+
+// Contracts for govc (see /verif/DESIGN.md). Comment-only: compiled only with -tags verif.
+package lazy
+
+// ---- state-ID tag algebra (C14) ----
+
+//@ func (StateID).IsTagged
+//@   props C14 C07
+//@   arith mixed
+//@   ensures result == (sid > 0x07FFFFFF)
+//@ func (StateID).Offset
+//@   props C14 C07
+//@   arith mixed
+//@   ensures 0 <= result && result <= 0x07FFFFFF && result == int(sid & 0x07FFFFFF)
+//@ func (StateID).IsMatchTag
+//@   props C14 C07
+//@   arith mixed
+//@   ensures result == (sid & 0x08000000 != 0)
+//@ func (StateID).IsDeadTag
+//@   props C14 C07
+//@   arith mixed
+//@   ensures result == (sid & 0x40000000 != 0)
+//@ func (StateID).IsInvalidTag
+//@   props C14 C07
+//@   arith mixed
+//@   ensures result == (sid & 0x80000000 != 0)
+//@ func (StateID).IsStartTag
+//@   props C14 C07
+//@   arith mixed
+//@   ensures result == (sid & 0x10000000 != 0)
+//@ func (StateID).WithMatchTag
+//@   props C14 C07
+//@   arith mixed
+//@   ensures result == sid | 0x08000000 && result & 0x07FFFFFF == sid & 0x07FFFFFF
+//@ func (StateID).WithStartTag
+//@   props C14 C07
+//@   arith mixed
+//@   ensures result == sid | 0x10000000 && result & 0x07FFFFFF == sid & 0x07FFFFFF
+
+// ---- DFA cache: recycled per-search state (C13, C20, C07) ----
+
+// After any clear the transition table must not expose a transition of the previous epoch.
+//@ spec func noStaleTrans(c *DFACache) bool = forall i :: 0 <= i && i < len(c.flatTrans) ==> c.flatTrans[i] == InvalidState
+
+//@ trusted func newStartTableFromByteMap
+//@ trusted func initStartStates
+//@   modifies st.states
+
+//@ func (*DFACache).ClearKeepMemory
+//@   props C13 C14 C20 C07
+//@   requires c != nil && c.clearCount < 1000000000 && 0 <= c.stride && c.stride <= 0x07FFFFFF
+//@   modifies c.*
+//@   ensures noStaleTrans(c)
+//@   ensures len(c.stateList) == 0 && c.nextID == StateID(c.stride) && c.clearCount == old(c.clearCount) + 1
+//@   ensures c.stride == old(c.stride) && c.capacityBytes == old(c.capacityBytes)
+
+//@ func (*DFACache).Reset
+//@   props C13 C14 C20 C07
+//@   requires c != nil && 0 <= c.stride && c.stride <= 0x07FFFFFF
+//@   modifies c.*
+//@   ensures noStaleTrans(c)
+//@   ensures len(c.stateList) == 0 && c.nextID == StateID(c.stride) && c.clearCount == 0 && c.hits == 0 && c.misses == 0
+//@   ensures c.stride == old(c.stride) && c.capacityBytes == old(c.capacityBytes)
+
+//@ func (*DFACache).Clear
+//@   props C13 C14 C20 C07
+//@   requires c != nil && 0 <= c.stride && c.stride <= 0x07FFFFFF
+//@   modifies c.*
+//@   ensures noStaleTrans(c)
+//@   ensures len(c.stateList) == 0 && c.nextID == StateID(c.stride) && c.clearCount == 0 && c.hits == 0 && c.misses == 0
+//@   ensures c.stride == old(c.stride) && c.capacityBytes == old(c.capacityBytes)
+
+//@ func (*DFACache).ResetClearCount
+//@   props C13 C07
+//@   requires c != nil && 0 <= c.stride && c.stride <= 0x07FFFFFF
+//@   modifies c.clearCount
+//@   ensures c.clearCount == 0
+
+//@ func (*DFACache).ClearCount
+//@   props C07
+//@   requires c != nil && 0 <= c.stride && c.stride <= 0x07FFFFFF
+//@   ensures result == c.clearCount
